@@ -15,6 +15,8 @@ import (
 	"github.com/prometheus/client_golang/prometheus/collectors"
 	"github.com/prometheus/client_golang/prometheus/promhttp"
 	"google.golang.org/grpc"
+	"google.golang.org/grpc/codes"
+	"google.golang.org/grpc/status"
 )
 
 type serverConfig struct {
@@ -163,7 +165,10 @@ func (s *server) Query(ctx context.Context, req *proto.QueryRequest) (*proto.Que
 	// TODO: execute queries concurrently.
 
 	for idx, pbq := range req.Queries {
-		q := convert.ToQuery(pbq)
+		q, err := convert.ToQuery(pbq)
+		if err != nil {
+			return nil, status.Errorf(codes.InvalidArgument, "invalid query: %v", err)
+		}
 
 		qid := pbq.Id
 		if qid == 0 {
